@@ -106,6 +106,55 @@ type c13Layout struct {
 	JoinLines   bool   // join context lines ending in ',' or '(' with the following context line
 	ExpandCtx   []int  // context line indexes written as an identical -/+ pair
 	CollapseEq  bool   // identical adjacent -/+ pairs written once as context
+	Respace     int    // 0: as is; n>0: n blanks between every two tokens of a body line (leading indentation kept)
+}
+
+// c13RespaceLine puts n blanks between every two Go tokens of a line (no
+// line break is added or removed, so no semicolon appears or disappears).
+// A line that does not scan cleanly is returned unchanged.
+func c13RespaceLine(text string, n int) string {
+	if n <= 0 || strings.TrimSpace(text) == "" {
+		return text
+	}
+	fset := token.NewFileSet()
+	f := fset.AddFile("l", -1, len(text))
+	var s scanner.Scanner
+	bad := false
+	s.Init(f, []byte(text), func(token.Position, string) { bad = true }, 0)
+	type tk struct{ off, end int }
+	var toks []tk
+	for {
+		pos, tok, lit := s.Scan()
+		if tok == token.EOF {
+			break
+		}
+		if tok == token.SEMICOLON && lit == "\n" {
+			continue
+		}
+		off := f.Offset(pos)
+		l := len(lit)
+		if lit == "" || !(tok.IsLiteral() || tok == token.IDENT || tok == token.SEMICOLON || tok.IsKeyword()) {
+			if lit == "" {
+				l = len(tok.String())
+			}
+		}
+		toks = append(toks, tk{off, off + l})
+	}
+	if bad || len(toks) < 2 {
+		return text
+	}
+	var b strings.Builder
+	b.WriteString(text[:toks[0].off])
+	for i, t := range toks {
+		if t.end > len(text) || t.off > t.end {
+			return text
+		}
+		if i > 0 {
+			b.WriteString(strings.Repeat(" ", n))
+		}
+		b.WriteString(text[t.off:t.end])
+	}
+	return b.String()
 }
 
 func c13ScanRename(text string, ren map[string]string) string {
@@ -313,7 +362,7 @@ func c13Render(changes []c13Change, layouts []c13Layout) (string, [][]string) {
 			if bblank[i] {
 				b.WriteString("\n")
 			}
-			text := c13ScanRename(l.Text, ren)
+			text := c13RespaceLine(c13ScanRename(l.Text, ren), lo.Respace)
 			parts := []string{text}
 			if lo.SplitCommas {
 				parts = c13SplitCommas(text)
@@ -394,6 +443,10 @@ func c13DrawLayout(rt *rapid.T, ch c13Change, idx int, ops map[string]bool) c13L
 	if rapid.IntRange(0, 2).Draw(rt, l("trail")) == 0 {
 		lo.Trailing = rapid.IntRange(1, 3).Draw(rt, l("trailN"))
 		ops["blank-lines"] = true
+	}
+	if rapid.IntRange(0, 2).Draw(rt, l("respace")) == 0 {
+		lo.Respace = rapid.IntRange(1, 3).Draw(rt, l("respaceN"))
+		ops["respace-tokens"] = true
 	}
 	if len(ch.Holes) > 0 && rapid.IntRange(0, 1).Draw(rt, l("rename")) == 0 {
 		lo.Rename = map[string]string{}
@@ -519,12 +572,25 @@ var c13Opts = modelOpts{
 	MinMutants: 0, MaxMutants: 1,
 }
 
+// c13RepeatOpts: repeated metavariables with consistency near-misses, so that
+// what a metavariable is called can matter if names leak into matching.
+var c13RepeatOpts = modelOpts{
+	Mine:         gen.MineOpts{MaxHoles: 3, MaxDots: 1, RepeatBias: true},
+	MaxHostLines: 160,
+	MinPlants:    1, MaxPlants: 2,
+	MinMutants: 1, MaxMutants: 3,
+}
+
 func TestC13(t *testing.T) {
 	c := coll("C13")
 	nGen := 0
 	checkN(t, func(rt *rapid.T) {
 		nGen++
-		mcs, why := genModelCase(rt, c13Opts)
+		opts := c13Opts
+		if rapid.IntRange(0, 3).Draw(rt, "repeatBias") == 0 {
+			opts = c13RepeatOpts
+		}
+		mcs, why := genModelCase(rt, opts)
 		if mcs == nil {
 			c.Note("generator:" + why)
 			return
